@@ -257,7 +257,11 @@ def parse_months(src, consts):
     arms = mm.group(1)
     table = []
     pos = 0
-    arm_re = re.compile(r'\s*((?:MONTH_\w+\s*\|\s*)*MONTH_\w+)\s*=>\s*buffer\.copy_from_slice\((MONTH_\d\d_m)\)\s*,')
+    # a pattern is a `MONTH_*` constant or a byte-string literal `b"…"` (the repaired "May." arm is
+    # written with literals); anything else (bindings, ranges, guards, slices …) is rejected below
+    pat_re = r'(?:MONTH_\w+|b"(?:[^"\\]|\\.)*")'
+    arm_re = re.compile(r'\s*((?:' + pat_re + r'\s*\|\s*)*' + pat_re + r')\s*=>\s*buffer\.copy_from_slice\((MONTH_\d\d_m)\)\s*,')
+    one_re = re.compile(r'\s*(' + pat_re + r')\s*(\|)?')
     while True:
         a = arm_re.match(arms, pos)
         if not a:
@@ -266,8 +270,22 @@ def parse_months(src, consts):
         val = consts.value(a.group(2))
         if not re.fullmatch(r'(0[1-9]|1[0-2])', val):
             raise GenError(f"{a.group(2)} = {val!r} is not a two-digit month")
-        for nm in re.split(r'\s*\|\s*', a.group(1)):
-            table.append((consts.value(nm), val, nm))
+        # split the alternatives with the literal-aware pattern (a `|` inside b"…" is not a separator)
+        alts = a.group(1)
+        q = 0
+        while q < len(alts):
+            o = one_re.match(alts, q)
+            if not o:
+                raise GenError(f"month_bB_to_month_m_bytes: cannot split patterns {alts[q:q + 40]!r}")
+            q = o.end()
+            nm = o.group(1)
+            if nm.startswith('b"'):
+                lit = unescape(nm[2:-1], f"month_bB_to_month_m_bytes: literal {nm}")
+                if not lit or any(ord(ch) >= 0x80 for ch in lit):
+                    raise GenError(f"month_bB_to_month_m_bytes: literal {nm} is empty or not ASCII")
+                table.append((lit, val, nm))
+            else:
+                table.append((consts.value(nm), val, nm))
     tail = arms[pos:].strip()
     if not re.fullmatch(r'data_\s*=>\s*\{\s*panic!\([^;]*\);\s*\}\s*,?', tail, re.S):
         raise GenError(f"month_bB_to_month_m_bytes: trailing arms not the modelled `data_ => panic!`: {tail[:80]!r}")
